@@ -462,6 +462,23 @@ def assignment_marks_target_written(ctx):
             ctx.check(f"{rname} {tval} ...: the target is marked as written", bool(got) and all(g in ("W", "RW", "PW", "PRW") for g in got), "a write access class", str(got), fn_where(idx, fa), nontrivial=(tname != "ASSIGN"))
 
 
+def write_property_table(ctx):
+    """what an assignment makes of its target's access class: a source becomes read-write, an operand without access letter (explicit,
+    alias) write-only - a write-only register gets no READ_REG of its own in the READ block"""
+    idx = get_index(ctx.env)
+    fw = idx.func("Register.add_write_property")
+    for name, access, exp in (("Rs", "R", "RW"), ("Rss", "PR", "PRW"), ("gp", "UNKNOWN", "W"), ("P0", "UNKNOWN", "PW"), ("Rd", "W", "W"), ("R31", "UNKNOWN", "W"), ("R1:0", "UNKNOWN", "W")):
+        box = {}
+        def once(i, name=name, access=access):
+            o = reg_obj(name, access, idx, is_explicit=name[1:2].isdigit(), is_alias=(name == "gp"))
+            box["o"] = o
+            return i.call_function(fw, [], self_obj=o)
+        Interp(idx).explore(once)
+        acc = box["o"].fields["access"]
+        ctx.check(f"add_write_property[{name},{access}]", isinstance(acc, EnumV) and acc.member == exp, exp, acc.member if isinstance(acc, EnumV) else str(acc), fn_where(idx, fw))
+
+
+
 @rule("R07.9", "C07", "register read/initialise decision table over access class, Rx operands and write-only registers", min_instances=12)
 def r07_9(ctx):
     idx = get_index(ctx.env)
@@ -493,17 +510,7 @@ def r07_9(ctx):
     outs = Interp(idx).explore(once)
     acc = box["o"].fields["access"]
     ctx.check("unknown access becomes R on first read", isinstance(acc, EnumV) and acc.member == "R" and [o.value for o in outs] == ["gp"], "access R, value gp", f"{acc.member if isinstance(acc, EnumV) else acc}, {[outcome_text(o) for o in outs]}", fn_where(idx, fr))
-    # write property
-    fw = idx.func("Register.add_write_property")
-    for name, access, exp in (("Rs", "R", "RW"), ("Rss", "PR", "PRW"), ("gp", "UNKNOWN", "W"), ("P0", "UNKNOWN", "PW"), ("Rd", "W", "W")):
-        box = {}
-        def once(i, name=name, access=access):
-            o = reg_obj(name, access, idx)
-            box["o"] = o
-            return i.call_function(fw, [], self_obj=o)
-        Interp(idx).explore(once)
-        acc = box["o"].fields["access"]
-        ctx.check(f"add_write_property[{name},{access}]", isinstance(acc, EnumV) and acc.member == exp, exp, acc.member if isinstance(acc, EnumV) else str(acc), fn_where(idx, fw))
+    write_property_table(ctx)
 
     # an explicit / alias register that the behaviour both reads and writes: the assignment runs add_write_property() while the
     # tree is transformed, every read is rendered afterwards - a read must still yield the value from before the instruction
@@ -512,7 +519,7 @@ def r07_9(ctx):
         def once2(i, name=name, kw=kw):
             o = reg_obj(name, "UNKNOWN", idx, **kw)
             box["o"] = o
-            i.call_function(fw, [], self_obj=o)
+            i.call_function(idx.func("Register.add_write_property"), [], self_obj=o)
             return i.call_function(fr, [], self_obj=o)
         outs = Interp(idx).explore(once2)
         obs = sorted({normalise(outcome_text(o)) for o in outs})
@@ -602,3 +609,10 @@ def r07_14(ctx):
     from .c09 import r09_4
 
     r09_4(ctx)
+
+
+@rule("R07.15", "C07", "every alias name is told from its `_NEW` postfix (shared with the grammar rules of C17): `HEX_REG_ALIAS_LC0_NEW` is the alias LC0 read as a new value", min_instances=3)
+def r07_15(ctx):
+    from .c17 import postfix_literal_checks
+
+    postfix_literal_checks(ctx)
